@@ -83,6 +83,13 @@ fn add_map(into: &mut BTreeMap<String, u64>, v: &Value) {
 impl Agg {
     fn absorb(&mut self, seed: u64, v: &Value) {
         self.runs += 1;
+        if let Ok(path) = std::env::var("VERIF_DUMP_TRACES") {
+            // development aid: one line per seed, to compare two batches seed by seed
+            use std::io::Write;
+            if let Ok(mut f) = std::fs::OpenOptions::new().create(true).append(true).open(path) {
+                let _ = writeln!(f, "{seed} {} {}", v["trace_hash"].as_str().unwrap_or("-"), v["steps"].as_u64().unwrap_or(0));
+            }
+        }
         if v["nontrivial"].as_bool().unwrap_or(false) {
             self.nontrivial += 1;
             if let Some(s) = v["shape"].as_str() {
